@@ -730,8 +730,14 @@ class HtpasswdFile(_CommonFile):
         if isinstance(password, str):
             # NOTE: encoding password to match file, same as check_password() does
             password = password.encode(self.encoding)
-        hash = self.context.hash(password)
+        hash = self.context.hash(password, **self._context_kwds())
         return self.set_hash(user, hash)
+
+    def _context_kwds(self):
+        """keywords for the context: schemes which take an encoding (plaintext) read the file's"""
+        if "encoding" in self.context.context_kwds:
+            return {"encoding": self.encoding}
+        return {}
 
     def get_hash(self, user):
         """Return hash stored for user, or ``None`` if user not found.
@@ -800,7 +806,9 @@ class HtpasswdFile(_CommonFile):
             # NOTE: encoding password to match file, making the assumption
             # that server will use same encoding to hash the password.
             password = password.encode(self.encoding)
-        ok, new_hash = self.context.verify_and_update(password, hash)
+        ok, new_hash = self.context.verify_and_update(
+            password, hash, **self._context_kwds()
+        )
         if ok and new_hash is not None:
             # rehash user's password if old hash was deprecated
             assert user in self._records  # otherwise would have to use ._set_record()
